@@ -102,7 +102,7 @@ theorem sysRmdir_noNew (fs : Fs) (path : Bytes) : NoNew fs (sysRmdir fs path).1 
     cases e with
     | dir =>
       simp only
-      by_cases h1 : p = []
+      by_cases h1 : p.isPrefixOf cwd = true
       · simp [h1]; exact NoNew.refl fs
       · by_cases h2 : fs.children p ≠ []
         · simp [h1, h2]; exact NoNew.refl fs
@@ -242,7 +242,7 @@ theorem sysRename_error (fs fs1 : Fs) (a b : Bytes) (e : Errno) (h : sysRename f
   | missing _ _ => simp [hra] at h; exact h.1.symm
   | found pf ef =>
     simp only [hra] at h
-    by_cases hp : pf = []
+    by_cases hp : pf.isPrefixOf cwd = true
     · simp [hp] at h; exact h.1.symm
     · rw [if_neg hp] at h
       cases hrb : resolve fs b false with
